@@ -76,6 +76,10 @@ pub fn gen_macro_case(g: &mut G) -> Value {
     // macro-only options
     doc["definitions"]["PatchMe"] = json!({"type": "object", "properties": {"pa": {"type": "integer"}}});
     doc["definitions"]["ReplaceMe"] = json!({"type": "string", "minLength": 1});
+    // a bare alias of the replaced definition: a newtype that forwards exactly the traits the
+    // replacement is declared to have
+    doc["definitions"]["ReplaceAlias"] = json!({"$ref": "#/definitions/ReplaceMe"});
+    doc["definitions"]["ReplaceUnion"] = json!({"oneOf": [{"$ref": "#/definitions/ReplaceMe"}, {"type": "integer"}]});
     doc["definitions"]["Uses"] = json!({"type": "object", "properties": {"p": {"$ref": "#/definitions/PatchMe"}, "r": {"$ref": "#/definitions/ReplaceMe"}, "c": conv_schema()}, "required": ["p", "r"]});
     if g.chance(1, 2) {
         let rename = g.chance(2, 3);
@@ -94,10 +98,13 @@ pub fn gen_macro_case(g: &mut G) -> Value {
         s.patch.insert("PatchMe".into(), p);
     }
     if g.chance(1, 2) {
-        let (suffix, impls): (&str, Vec<&str>) = match g.below(4) {
+        let (suffix, impls): (&str, Vec<&str>) = match g.below(7) {
             0 => ("", vec!["FromStr", "Display"]),
             1 => (": ?Display", vec!["FromStr"]),
             2 => (": Default", vec!["FromStr", "Display", "Default"]),
+            3 => (": Default + ?FromStr", vec!["Display", "Default"]),
+            4 => (": ?FromStr", vec!["Display"]),
+            5 => (": ?Display + Default", vec!["FromStr", "Default"]),
             _ => (": ?FromStr + ?Display", vec![]),
         };
         opts.push(format!("replace = {{ ReplaceMe = ::std::string::String{suffix} }}"));
